@@ -45,6 +45,7 @@ class Engine:
         # results
         self.npaths = 0
         self.npaths_assert = 0
+        self.reused = 0
         self.obligations = 0
         self.discharged = 0
         self.unknown = []
@@ -137,6 +138,12 @@ class Engine:
             self.pos = 0
             self.stack = stack
             self.pc = []
+            # index of the decision that distinguishes this path from the
+            # path that scheduled it: everything before it was executed
+            # identically (same decisions, same path condition) there
+            self.flip = len(prefix) - 1
+            self.known = {}
+            self.atoms = []
             self.solver = self._new_solver()
             self.path_asserted = False
             self.notes = []
@@ -194,11 +201,29 @@ class Engine:
     def branch(self, cond):
         if isinstance(cond, bool):
             return cond
+        # conditions decided earlier on the path / determined by the atoms
+        # decided earlier are answered without a decision: the answer is a
+        # pure function of the earlier decisions, so replays stay aligned
+        raw = cond
+        kn = self.known.get(raw.get_id())
+        if kn is not None:
+            return kn[1]
         cond = z3.simplify(cond)
         if z3.is_true(cond):
             return True
         if z3.is_false(cond):
             return False
+        kn = self.known.get(cond.get_id())
+        if kn is not None:
+            self.known[raw.get_id()] = (raw, kn[1])
+            return kn[1]
+        if self.atoms and not z3.is_const(cond):
+            c2 = z3.simplify(z3.substitute(cond, *self.atoms))
+            if z3.is_true(c2) or z3.is_false(c2):
+                d = z3.is_true(c2)
+                self.known[raw.get_id()] = (raw, d)
+                self.known[cond.get_id()] = (cond, d)
+                return d
         if self.pos < len(self.decisions):
             d = self.decisions[self.pos]
         else:
@@ -219,6 +244,15 @@ class Engine:
             self.decisions.append(d)
         self.pos += 1
         self._add(cond if d else z3.Not(cond))
+        self.known[cond.get_id()] = (cond, d)
+        self.known[raw.get_id()] = (raw, d)
+        neg = z3.simplify(z3.Not(cond))
+        self.known[neg.get_id()] = (neg, not d)
+        if z3.is_const(cond) and cond.decl().kind() == z3.Z3_OP_UNINTERPRETED:
+            self.atoms.append((cond, z3.BoolVal(d)))
+        elif z3.is_not(cond) and z3.is_const(cond.arg(0)) and \
+                cond.arg(0).decl().kind() == z3.Z3_OP_UNINTERPRETED:
+            self.atoms.append((cond.arg(0), z3.BoolVal(not d)))
         return d
 
     def concretize(self, expr):
@@ -231,6 +265,15 @@ class Engine:
         e = z3.simplify(e)
         if z3.is_int_value(e):
             return e.as_long()
+        kn = self.known.get(("int", e.get_id()))
+        if kn is not None:
+            return kn[1]
+        e0 = e
+        if self.atoms:
+            e2 = z3.simplify(z3.substitute(e, *self.atoms))
+            if z3.is_int_value(e2):
+                self.known[("int", e0.get_id())] = (e0, e2.as_long())
+                return e2.as_long()
         if self.pos < len(self.decisions):
             v = self.decisions[self.pos]
             self.pos += 1
@@ -239,10 +282,15 @@ class Engine:
                 excl = list(v[1])
                 self.pos -= 1
                 self.decisions = self.decisions[:self.pos]
-                return self._concretize_new(e, excl)
+                v = self._concretize_new(e, excl)
+                self.known[("int", e0.get_id())] = (e0, v)
+                return v
             self._add(e == v)
+            self.known[("int", e0.get_id())] = (e0, v)
             return v
-        return self._concretize_new(e, [])
+        v = self._concretize_new(e, [])
+        self.known[("int", e0.get_id())] = (e0, v)
+        return v
 
     def _concretize_new(self, e, excl):
         cons = [e != x for x in excl]
@@ -267,6 +315,13 @@ class Engine:
         return v
 
     # ----------------------------------------------------------- asserting
+    @property
+    def fresh(self):
+        """False while this path still replays the decisions it shares with
+        the path that scheduled it (obligations met there were decided
+        there, under the same path condition)"""
+        return self.pos > self.flip
+
     def reach(self):
         """mark that an assertion site was reached on this path"""
         self.path_asserted = True
@@ -278,10 +333,21 @@ class Engine:
         under the assumption that cond holds (so later obligations are still
         examined)."""
         self.path_asserted = True
+        if not self.fresh:
+            # identical obligation already decided on the scheduling path
+            self.reused += 1
+            return True
         self.obligations += 1
+        if cond is True:
+            self.discharged += 1
+            return True
         cond = tobool(cond)
         if isinstance(cond, bool):
             cond = z3.BoolVal(cond)
+        if z3.is_true(cond) or z3.is_true(z3.simplify(cond)):
+            # literally true on this path: nothing to ask the solver
+            self.discharged += 1
+            return True
         r, m = self.check(z3.Not(cond))
         if r == "unknown":
             r, m = self.check(z3.Not(cond), timeout_ms=4 * self.timeout_ms)
@@ -339,6 +405,7 @@ class Engine:
             "distinct_nontrivial": self.distinct_nontrivial,
             "queries": self.nq, "solver_time_s": round(self.tsolve, 3),
             "obligations": self.obligations, "discharged": self.discharged,
+            "obligations_shared_prefix": self.reused,
             "unknown": self.unknown[:10], "n_unknown": len(self.unknown),
             "violations": self.violations, "errors": self.errors[:5],
             "n_errors": len(self.errors), "pathlimit": self.pathlimit,
